@@ -2,6 +2,7 @@ package gateway
 
 import (
 	"fmt"
+	"sync"
 
 	mqPkts "github.com/eclipse/paho.mqtt.golang/packets"
 
@@ -39,6 +40,10 @@ type brokerPublishTransactionBase struct {
 	log       util.Logger
 	snPublish *snPkts1.Publish
 	handler   *handler1
+	// Serializes the first transmission of a packet with its retransmission
+	// by the retry timer: both work with the same packet object and the timer
+	// is already running when the packet is being sent for the first time.
+	sendLock sync.Mutex
 }
 
 func (t *brokerPublishTransactionBase) SetSNPublish(snPublish *snPkts1.Publish) {
@@ -61,7 +66,10 @@ func (t *brokerPublishTransactionBase) regack(snRegack *snPkts1.Regack, newState
 
 func (t *brokerPublishTransactionBase) ProceedSN(newState transactionState, snPkt snPkts.Packet) error {
 	t.Proceed(newState, snPkt)
-	if err := t.handler.snSend(snPkt); err != nil {
+	t.sendLock.Lock()
+	err := t.handler.snSend(snPkt)
+	t.sendLock.Unlock()
+	if err != nil {
 		t.Fail(err)
 		return err
 	}
@@ -73,7 +81,10 @@ func (t *brokerPublishTransactionBase) ProceedSN(newState transactionState, snPk
 
 func (t *brokerPublishTransactionBase) ProceedMQTT(newState transactionState, mqPkt mqPkts.ControlPacket) error {
 	t.Proceed(newState, mqPkt)
-	if err := t.handler.mqttSend(mqPkt); err != nil {
+	t.sendLock.Lock()
+	err := t.handler.mqttSend(mqPkt)
+	t.sendLock.Unlock()
+	if err != nil {
 		t.Fail(err)
 		return err
 	}
@@ -86,6 +97,8 @@ func (t *brokerPublishTransactionBase) ProceedMQTT(newState transactionState, mq
 // Resend MQTT or MQTT-SN packet.
 func (t *brokerPublishTransactionBase) resend(pktx interface{}) error {
 	t.log.Debug("Resend.")
+	t.sendLock.Lock()
+	defer t.sendLock.Unlock()
 	switch pkt := pktx.(type) {
 	case snPkts.Packet:
 		// The packet is already queued for a sleeping client, do not queue
